@@ -363,6 +363,9 @@ def r5_shared_element_checks(ctx):
         yield o
     for o in c15.r6_delegation_always_runs(ctx):
         yield o
+    # a missing required element / component is only reported if the node at its position is asked about `None`
+    for o in c15._delegation_by_position(ctx):
+        yield o
 
 def r6_shared_walker(ctx):
     """a missing mandatory segment/loop, an exceeded repeat limit and an unexpected segment are found by the walker
@@ -404,7 +407,7 @@ RULES = [
     Rule('C03.R2', 'walker segment reports dominated by add_seg in the same function', r2_segment_attachment, floor=3),
     Rule('C03.R3', 'position arguments of add_seg / walk are not crossed; position fields stored by name', r3_positions, floor=7),
     Rule('C03.R4', 'message/code agreement with the X12 code meanings', r4_codes, floor=15),
-    Rule('C03.R5', 'shared with C15.R3/R6: length atoms measure the right string with the right code; delegated checks always run', r5_shared_element_checks, floor=19),
+    Rule('C03.R5', 'shared with C15.R3/R4/R6: length atoms measure the right string with the right code; delegated checks always run, for present and for missing positions', r5_shared_element_checks, floor=19),
     Rule('C03.R6', 'shared with C02.R5: walker counting/ordering atoms (pending mandatory nodes are reported, limits, positions)', r6_shared_walker, floor=10),
     Rule('C03.R9', 'shared with C05.R14: error totals are sums over the whole error tree', r9_shared_error_totals, floor=3),
     Rule('C03.R8', 'shared with C18.R2: the validating modules keep no module/class-level state and cache nothing across calls', r8_no_state_between_documents, floor=8),
